@@ -32,6 +32,8 @@ pub enum SenderRel {
     IsGm,
     /// a second port (number 2) of the clock that also sends as `Below` (k = 0)
     SiblingOfFirst,
+    /// the very frames of foreign master 0 heard on another port too (one shared segment)
+    SameFramesAsFirst,
 }
 
 #[derive(Clone, Copy, Debug, PartialEq, Eq, Serialize, Deserialize)]
@@ -84,10 +86,13 @@ fn sender_pid(f: &Fm, k: usize) -> Pid {
         SenderRel::Above => Pid { clock: [0xf0, 0, 0, 0, 0, 0, 0, k as u8], port: 1 },
         SenderRel::IsGm => Pid { clock: gm_id(f.attr.gm), port: 1 },
         SenderRel::SiblingOfFirst => Pid { clock: [0x10, 0, 0, 0, 0, 0, 0, 0], port: 2 },
+        SenderRel::SameFramesAsFirst => Pid { clock: [0x10, 0, 0, 0, 0, 0, 0, 0], port: 1 },
     }
 }
 
 fn peer_of(f: &Fm, k: usize) -> Peer {
+    // the same frames as master 0: everything, sequence ids included, as for k = 0
+    let k = if f.sender == SenderRel::SameFramesAsFirst { 0 } else { k };
     let mut p = Peer::gm(0, f.attr.p1);
     p.pid = sender_pid(f, k);
     p.gm_identity = gm_id(f.attr.gm);
@@ -539,6 +544,42 @@ pub fn run(tier: Tier) -> i32 {
         }
     }
     run_cases(&mut acc, cases);
+    // shared segment: the frames of one master reach two ports of the instance
+    let mut cases = vec![];
+    let mut meta = vec![];
+    for (oi, own) in owns().into_iter().step_by(3).enumerate() {
+        for (ai, a) in pool(&[0, 1, 4, 5]).iter().enumerate() {
+            for &sa in &steps {
+                for (n_ports, pa, pb) in [(2usize, 0usize, 1usize), (2, 1, 0), (3, 0, 2), (3, 2, 1)] {
+                    for prior in [Prior::None, Prior::SeedRound] {
+                        for mo in [None, Some(pa), Some(pb)] {
+                            let mut master_only = vec![false; n_ports];
+                            if let Some(m) = mo {
+                                master_only[m] = true;
+                            }
+                            let c = Case {
+                                own,
+                                n_ports,
+                                master_only,
+                                slave_only: false,
+                                fms: vec![Fm { attr: *a, steps: sa, sender: SenderRel::Below, port: pa }, Fm { attr: *a, steps: sa, sender: SenderRel::SameFramesAsFirst, port: pb }],
+                                prior,
+                                port_order: (0..n_ports).collect(),
+                                arrival: vec![0, 1],
+                                quality_change: None,
+                            };
+                            if (oi + ai + sa as usize) % 5 == 0 {
+                                meta.push(c.clone());
+                            }
+                            cases.push(c);
+                        }
+                    }
+                }
+            }
+        }
+    }
+    run_cases(&mut acc, cases);
+    run_metamorphic(&mut acc, meta);
     // tier 2: two foreign masters on one or two ports, 16-member sub-pool
     let sub16 = pool(&[0, 1, 4, 5]);
     let own16: Vec<Attr> = owns().into_iter().step_by(3).collect();
@@ -687,7 +728,7 @@ pub fn run(tier: Tier) -> i32 {
     rep.cover("evaluations", json!(acc.evals));
     rep.cover("distinct_nontrivial", json!(nontrivial));
     rep.cover("decision_vectors", json!(acc.classes));
-    rep.cover("rule", json!("own data set (32 pool combinations of priority1/class/accuracy/variance/priority2 + clockClass 6/127/128/248/255) x foreign masters from the two-values-per-level pool (64 / 16 / 8 members) x stepsRemoved {0,1,2,3,254} x sender identity relation x receiving port x prior state (fresh, master by timeout, previous BMCA round, faulty) x master-only/slave-only; non-trivial = cases whose reference decision vector contains a decision (not only 'stay listening'); decision vectors are counted in decision_vectors"));
+    rep.cover("rule", json!("own data set (32 pool combinations of priority1/class/accuracy/variance/priority2 + clockClass 6/127/128/248/255) x foreign masters from the two-values-per-level pool (64 / 16 / 8 members) x stepsRemoved {0,1,2,3,254} x sender identity relation (below/above the receiver, the grandmaster itself, a second port of the first sender's clock, the first sender's very frames heard on another port) x receiving port x prior state (fresh, master by timeout, previous BMCA round, faulty) x master-only/slave-only; non-trivial = cases whose reference decision vector contains a decision (not only 'stay listening'); decision vectors are counted in decision_vectors"));
     rep.cover("samples", json!(acc.samples));
     rep.cover("exhaustive", json!(true));
     rep.assume("refbmca (simcore/src/refbmca.rs) is a correct reading of IEEE 1588-2019 figures 33-35 and tables 30-33; senders are compared by full port identity");
